@@ -151,3 +151,25 @@ def constructed_elements(repo):
                         out.setdefault(d.split('.')[1], []).append(
                             (m.relpath, f.qualname, c.lineno, c))
     return out
+
+
+def attr_aliases(func):
+    """local names bound to the attribute dict of the element being parsed
+    (`x = attrs(tup_tree)`), plus the textual form of the direct call"""
+    out = set()
+    for n in walk_no_nested(func.node):
+        if isinstance(n, ast.Assign) and len(n.targets) == 1 and \
+                isinstance(n.targets[0], ast.Name) and \
+                isinstance(n.value, ast.Call) and \
+                dotted(n.value.func) == 'attrs':
+            out.add(n.targets[0].id)
+    return out
+
+
+def is_attr_dict(expr, func, aliases=None):
+    if isinstance(expr, ast.Call) and dotted(expr.func) == 'attrs':
+        return True
+    if isinstance(expr, ast.Name):
+        return expr.id in (aliases if aliases is not None
+                           else attr_aliases(func))
+    return False
